@@ -29,7 +29,7 @@ type Unit struct {
 	// (the third-deviation level of the model, byte-level menus of the large seeds, pair mutations);
 	// C06 evaluates every unit in full.
 	Light bool
-	Gen  xgen.Enum
+	Gen   xgen.Enum
 }
 
 // RepoDir is the zcrypto checkout the binary was built against.
@@ -134,16 +134,23 @@ type Config struct {
 	ModelDepth int  // deviations of the field model (2 or 3)
 	Shards     int  // shards of the model levels <= 2
 	AllSeeds   bool // every certificate seed (else: the quick seed list)
-	AllBytes   bool // byte-level menu for every selected seed (else: only seeds <= QuickBytesLimit)
+	Bytes      int  // byte-level menu for: BytesSmall = quick-list seeds <= QuickBytesLimit, BytesQuickList = all quick-list seeds, BytesAll = every selected seed
 	Pairs      bool // TLVPairs menu for seeds <= PairLimit
 }
+
+// Values of Config.Bytes.
+const (
+	BytesSmall = iota
+	BytesQuickList
+	BytesAll
+)
 
 // DefaultConfig is the stream of a tier as C02 uses it.
 func DefaultConfig(quick bool) Config {
 	if quick {
 		return Config{ModelDepth: 2, Shards: 96}
 	}
-	return Config{ModelDepth: 3, Shards: 96, AllSeeds: true, AllBytes: true, Pairs: true}
+	return Config{ModelDepth: 3, Shards: 96, AllSeeds: true, Bytes: BytesAll, Pairs: true}
 }
 
 // level3 enumerates the assignments with exactly three non-default fields whose
@@ -257,7 +264,7 @@ func Units(cfg Config, all []xgen.Seed) []Unit {
 		for k := 0; k < K; k++ {
 			units = append(units, Unit{Name: fmt.Sprintf("seed/%s/tlv/%d-of-%d", s.Name, k, K), Kind: "seed-tlv", Base: s.Data, Seed: s.Name, Gen: tlv.Shard(k, K)})
 		}
-		if cfg.AllBytes || len(s.Data) <= QuickBytesLimit {
+		if cfg.Bytes == BytesAll || (q && (cfg.Bytes == BytesQuickList || len(s.Data) <= QuickBytesLimit)) {
 			for lo := 0; lo < len(s.Data); lo += ByteWindow {
 				hi := lo + ByteWindow
 				if hi > len(s.Data) {
@@ -299,9 +306,12 @@ func Describe(cfg Config, units []Unit) string {
 		which = "every certificate fixture found under the repository + 12 harness-minted CA/leaf certificates"
 	}
 	s += fmt.Sprintf("; (b) for each of %d certificate seeds (%s) the seed itself and every (TLV node x %d operators) single mutation with ancestor lengths fixed up; ", n["seed-tlv"], which, xgen.TLVMenuSize)
-	if cfg.AllBytes {
+	switch cfg.Bytes {
+	case BytesAll:
 		s += "(c) for each of them every single-byte substitution from {00,01,7f,80,ff,b^01,b^80} at every offset and every truncation"
-	} else {
+	case BytesQuickList:
+		s += fmt.Sprintf("(c) for %d of them (10 harness-minted certificates + a fixed list of fixtures, one per key kind / extension family) every single-byte substitution from {00,01,7f,80,ff,b^01,b^80} at every offset and every truncation", n["seed-bytes"])
+	default:
 		s += fmt.Sprintf("(c) for the %d of them <= %d bytes every single-byte substitution from {00,01,7f,80,ff,b^01,b^80} at every offset and every truncation", n["seed-bytes"], QuickBytesLimit)
 	}
 	if n["seed-pairs"] > 0 {
